@@ -409,10 +409,18 @@ class PluginEnv:
                     f.write(fixture_source(pkg, beh))
             sys.modules[pkg].__path__.append(base)
         reset_caches()
+        # component-id names go through the repository's own loader: <creator>_component_ids.json files in a configuration
+        # directory (plus a file the loader must ignore); the module is re-executed so that it starts from its initial state
         from pel.peltool import comp_id
-        comp_id.componentIDs.clear()
-        comp_id.componentIDs.update(self.comp_ids)
-        comp_id.attemptedToParseCompIDs = True
+        cfg = os.path.join(self.dir, 'pelcfg')
+        os.makedirs(cfg)
+        for creator, table in self.comp_ids.items():
+            with open(os.path.join(cfg, creator + '_component_ids.json'), 'w') as f:
+                json.dump(table, f)
+        with open(os.path.join(cfg, 'message_registry.json'), 'w') as f:
+            f.write('{"PELs": []}')
+        importlib.reload(comp_id)
+        comp_id.pelConfigRootPath = cfg
         from pel.peltool import src as _src
         _src.registry.pels = self.registry
         return self
@@ -431,6 +439,17 @@ class PluginEnv:
             shutil.rmtree(self.dir, ignore_errors=True)
             self.dir = None
             reset_caches()
+            cid = sys.modules.get('pel.peltool.comp_id')
+            if cid is not None:
+                importlib.reload(cid)
+
+
+def reset_comp_ids():
+    """put pel.peltool.comp_id back into its initial state (as in a fresh interpreter) while keeping the configured directory"""
+    from pel.peltool import comp_id
+    root = comp_id.pelConfigRootPath
+    importlib.reload(comp_id)
+    comp_id.pelConfigRootPath = root
 
 
 def reset_caches():
